@@ -3,7 +3,7 @@ from . import ntt, C03
 from ..runner import Ob
 META = dict(C03.META)
 META['functions'] = ['NTT_Goldilocks::extendPol', 'NTT_Goldilocks::computeR', 'nested NTT_Goldilocks(N_ext, nThreads, N_ext/N) constructor and destructor', 'reversePermutation zero-padding paths'] + C03.META['functions']
-META['bounds'] = {'quick': 'N = 2^a <= N_ext = 2^b, b <= 4 (incl. N = 1 and N = N_ext); ncols 1..3; nphase, nblock: ALL uint64 values (symbolic); output == input (N_ext rows) or distinct buffers; buffer in {NULL, caller}; all input matrices',
+META['bounds'] = {'quick': 'N = 2^a <= N_ext = 2^b, b <= 4 (incl. N = 1 and N = N_ext); ncols 1..3; nphase, nblock: ALL uint64 values (symbolic); output == input (N_ext rows) or distinct buffers; buffer in {NULL, caller}; all input matrices; plus (N,N_ext) in {(32,64),(64,128),(32,256)} with concrete (nphase,nblock) in {(3,1),(2,1),(4,2)}',
                   'thorough': 'b <= 7 (N_ext <= 128), ncols 1..4'}
 META['trusted_base'] = C03.META['trusted_base'] + ['oracle: interpolation by the independent inverse DFT and Horner evaluation at 7·w_Next^k (ground arithmetic on coefficients); SHIFT read from the IR global and checked = 7']
 def classes(ctx):
@@ -20,6 +20,13 @@ def obligations(ctx):
     for (a, b, ncols, inplace, buf) in classes(ctx):
         obs.append(Ob('ext/N%d/Next%d/c%d/%s/%s' % (1 << a, 1 << b, ncols, 'inplace' if inplace else 'distinct', 'buf' if buf else 'nobuf'), ntt.ob,
                       ('C05', 'ext', a, b, ncols, 'same' if inplace else 'other', buf), dict(a=a), weight=(1 << b) * ncols))
+    for (a, b) in (((5, 6), (6, 7), (5, 8), (7, 8), (8, 10)) if ctx.thorough else ((5, 6), (6, 7), (5, 8))):
+        for sched in ((3, 1), (2, 1), (4, 2)):
+            if b >= 10 and sched != (3, 1): continue
+            ncols = 2 if sched == (4, 2) else 1
+            for inplace in (False, True):
+                obs.append(Ob('ext-large/N%d/Next%d/c%d/nphase%d/nblock%d/%s' % (1 << a, 1 << b, ncols, sched[0], sched[1], 'inplace' if inplace else 'distinct'), ntt.ob,
+                              ('C05', 'ext', a, b, ncols, 'same' if inplace else 'other', False), dict(a=a, sched=sched, nthreads=(1, 3, 0, 2)[b % 4]), weight=(1 << b) * ncols * 4))
     return obs + C03.contract_obs(ctx)
 def validate(ctx): return ntt.validate(ctx)
 def replay(ctx, d): return ntt.replay(ctx, d)
